@@ -133,17 +133,29 @@ def work_sequences(task):
         y = AuthalicProjection().forward(x)
         ops = [('forward', x), ('inverse', x), ('forward', y), ('inverse', y), ('forward', -x)]
         fresh = {op: getattr(AuthalicProjection(), op[0])(op[1]) for op in ops}
+        # rejected calls (non-finite or non-numeric latitude) are calls too: whatever they do, they must leave nothing behind
+        bad_ops = [('inverse', float('inf')), ('forward', float('nan')), ('inverse', None), ('forward', 'x')]
+        for op in bad_ops:
+            try:
+                fresh[op] = ('value', repr(getattr(AuthalicProjection(), op[0])(op[1])))
+            except Exception as e:
+                fresh[op] = ('raises', type(e).__name__)
+        ops = ops + bad_ops
         for shared_name in ('new instance', 'module singleton'):
             for n in (2, 3):
                 for seq in itertools.product(ops, repeat=n):
+                    if n == 3 and sum(1 for o in seq if o in bad_ops) != 1:
+                        continue          # length 3: exactly one rejected call among two valid ones (keeps the enumeration small)
                     au = AuthalicProjection() if shared_name == 'new instance' else ct.authalic
                     acc.n['evaluations'] += 1
                     acc.strata['op_sequences'] += 1
                     for i, op in enumerate(seq):
                         try:
                             got = getattr(au, op[0])(op[1])
+                            if op in bad_ops:
+                                got = ('value', repr(got))
                         except Exception as e:
-                            got = repr(e)
+                            got = ('raises', type(e).__name__) if op in bad_ops else repr(e)
                         if got != fresh[op]:
                             acc.violation(f'c15:history:{x!r}:{"/".join(o[0] for o in seq[:i + 1])}',
                                           f'{op[0]}({op[1]!r}) returned {got!r} after {[o[0] + "(" + repr(o[1]) + ")" for o in seq[:i]]} on a shared converter ({shared_name}); alone it returns {fresh[op]!r}',
